@@ -94,7 +94,7 @@ def run(rep, tier, seed):
     rep.add_tlc(res, "MC_CFactor_D2")
     for r in res.records:
         r["D"] = 2; r["zo"] = 0
-    if {r["kind"] for r in res.records} != {"eig2c", "eig2cc"}:
+    if {r["kind"] for r in res.records} != {"eig2c", "eig2cc", "eig2ch"}:
         raise Machinery("MC_CFactor: complex eigenproblems not generated")
     recs += res.records
     stale_out = {}
@@ -107,7 +107,7 @@ def run(rep, tier, seed):
             + [[rs[i], rs[(i + 1 + len(rs) // 2) % len(rs)]] for i in range(0, len(rs), 2) if len(rs) > 3]
         for pack in packs:
             P = len(pack)
-            a2d = carr_to_data if kind in ("eig2c", "eig2cc") else arr_to_data
+            a2d = carr_to_data if kind in ("eig2c", "eig2cc", "eig2ch") else arr_to_data
             get = lambda name: numpy.stack([a2d(r["inst"][name], D) for r in pack], axis=1)
             A = get("A")
             Au = UTPM(A.copy())
@@ -211,7 +211,7 @@ def run(rep, tier, seed):
                     resid(rep, sig, det, "U diag(s) V^T = A", tdot(Ud, tdot(diag_poly(sd, 3, 2), tT(Vd))), A, sc)
                     resid(rep, sig, det, "U^T U = I", tdot(tT(Ud), Ud), eye_poly(D, P, 3), 1.0)
                     resid(rep, sig, det, "V^T V = I", tdot(tT(Vd), Vd), eye_poly(D, P, 2), 1.0)
-                elif kind in ("eig2", "eig2c", "eig2cc"):
+                elif kind in ("eig2", "eig2c", "eig2cc", "eig2ch"):
                     lams = get("lam")
                     l, X = algopy.eig(Au)
                     ld, Xd = (l.data, X.data) if kind != "eig2" else (numpy.real_if_close(l.data), numpy.real_if_close(X.data))
